@@ -23,5 +23,19 @@ for pid in ids:
     d = json.load(open(f"/verif/evidence/{pid}.json"))
     if len(led[pid]) != d["coverage"]["discharged"]:
         print("ledger/evidence mismatch", pid, len(led[pid]), d["coverage"]["discharged"]); bad += 1
+import hashlib, os
+try:
+    base = json.load(open("/verif/baseline_hashes.json"))
+    cur = {}
+    for root, dirs, files in os.walk('/repo'):
+        dirs[:] = [d for d in dirs if d != '.git']
+        for f in files:
+            if f.endswith('.go'):
+                p = os.path.join(root, f)
+                cur[os.path.relpath(p, '/repo')] = hashlib.sha256(open(p, 'rb').read()).hexdigest()[:16]
+    if base != cur:
+        print("baseline_hashes.json does not describe /repo's tree: run tools/ledger_from_evidence.py after the quick suite"); bad += 1
+except Exception as e:
+    print("baseline hashes:", e); bad += 1
 print("ok" if not bad else f"{bad} problem(s)")
 sys.exit(1 if bad else 0)
